@@ -1,7 +1,7 @@
 import BarterModel.Driver.Common
 import BarterModel.Model.Backtest
 /-! Line-protocol driver for C20.
-Ops: `data k i:p ...`, `strat t:i:s:q ...` | `strat -`, `run n w`.
+Ops: `data k (i:p | R) ...` (`R` = `MarketStreamEvent::Reconnecting` marker, anywhere), `strat t:i:s:q ...` | `strat -`, `run n w`.
 
 `model` runs every strategy parameterisation alone with `run` under a lazy and an eager action list
 (`schedActs`); for small systems it also builds the N machines, interleaves their action lists
@@ -12,8 +12,8 @@ theorem) and checks that every machine ended as it does alone (`bad-state isolat
 same account-side summary and the non-deterministic token `{0|1}` when they do not (the real result
 then depends on how tokio interleaves the execution responses with `Shutdown`).
 
-`spec` is written from the property text only: every backtest sees exactly the dataset in order
-(per instrument: the sub-sequence of that instrument), its summary is its own engine's, and it is
+`spec` is written from the property text only: every backtest sees exactly the dataset in order,
+markers included (per instrument: the sub-sequence of that instrument's Items), its summary is its own engine's, and it is
 the same as when run alone. -/
 namespace BarterModel.Driver.C20
 open BarterModel.Driver BarterModel.Backtest
@@ -33,12 +33,13 @@ structure St where
 def parseEvents (k : Nat) (toks : List String) : Option (List MktEv) :=
   let rec go (pos : Nat) : List String → Option (List MktEv)
     | [] => some []
+    | "R" :: ts => (go (pos + 1) ts).map (fun l => MktEv.reconnecting pos :: l)
     | t :: ts =>
       match t.splitOn ":" with
       | [i, p] =>
         match i.toNat?, p.toNat? with
         | some i, some p =>
-          if i < k then (go (pos + 1) ts).map (fun l => ⟨pos, i, p⟩ :: l) else none
+          if i < k then (go (pos + 1) ts).map (fun l => MktEv.trade pos i p :: l) else none
         | _, _ => none
       | _ => none
   go 0 toks
@@ -71,6 +72,13 @@ def parsePlan (k : Nat) (toks : List String) : Option (List PlanItem) :=
   | _ => (toks.mapM (parseItem k)).map sortPlan
 
 def ids (l : List Nat) : String := " ".intercalate (l.map toString)
+
+/-- market stream as observed: item ids, `R` for a disconnect notice -/
+def seenStr (l : List (Option Nat)) : String :=
+  " ".intercalate (l.map fun | some i => toString i | none => "R")
+
+/-- `MarketDataInMemory::new` (market_data.rs:62-70) panics on a dataset without any `Item`. -/
+def hasItem (ds : List MktEv) : Bool := ds.any (fun m => !m.marker)
 
 def sideStr : Side → String
   | .buy => "B"
@@ -125,7 +133,7 @@ def runModel (s : St) (n : Nat) (res : List PlanRes) : List String :=
         && e.eng == engFold cEngine e0 e.processed
         && l.stopped == some .shutdown && e.stopped == some .shutdown
       let det := cSummarise l.eng == cSummarise e.eng
-      [ line ["seen", toString b, ids l.eng.mv.seen] ] ++
+      [ line ["seen", toString b, seenStr l.eng.mv.seen] ] ++
       ((List.range s.k).map fun j => line ["inst", toString b, toString j, ids (l.eng.mv.instSeen.getD j [])]) ++
       [ line ["reqs", toString b, " ".intercalate (l.eng.mv.reqs.map reqStr)],
         line ["own", toString b, fmtBool own],
@@ -151,6 +159,7 @@ def model : Drv St where
       match n.toNat?, w.toNat? with
       | some n, some _ =>
         if s.plans.isEmpty || s.ds.isEmpty then (s, ["bad-op"]) else
+        if !hasItem s.ds then (s, ["panic"]) else
         let res := match s.cache with
           | some r => r
           | none => s.plans.map (planRes s)
@@ -161,9 +170,9 @@ def model : Drv St where
 /-- The property text, as observations: for each of the `n` backtests. -/
 def runSpec (s : St) (n : Nat) : List String :=
   (List.range n).flatMap fun b =>
-    [ line ["seen", toString b, ids (s.ds.map (·.id))] ] ++
+    [ line ["seen", toString b, seenStr (s.ds.map fun m => if m.marker then none else some m.id)] ] ++
     ((List.range s.k).map fun j =>
-      line ["inst", toString b, toString j, ids ((s.ds.filter (·.inst == j)).map (·.id))]) ++
+      line ["inst", toString b, toString j, ids ((s.ds.filter (fun m => !m.marker && m.inst == j)).map (·.id))]) ++
     [ line ["own", toString b, "1"], line ["alone", toString b, "1"] ]
 
 def spec : Drv St where
@@ -184,7 +193,9 @@ def spec : Drv St where
     | ["run", n, w] =>
       match n.toNat?, w.toNat? with
       | some n, some _ =>
-        if s.plans.isEmpty || s.ds.isEmpty then (s, ["bad-op"]) else (s, runSpec s n)
+        if s.plans.isEmpty || s.ds.isEmpty then (s, ["bad-op"])
+        else if !hasItem s.ds then (s, ["panic"])  -- documented precondition: at least one Item
+        else (s, runSpec s n)
       | _, _ => (s, ["bad-op"])
     | _ => (s, ["bad-op"])
 
